@@ -1775,10 +1775,13 @@ class UserSpaceImpl(*_user_space_impl_base):
                     raise RuntimeError("must not happen")
 
             elif name in self.cells:
-                if self.cells[name].is_scalar():
-                    self.cells[name].set_value((), value)
-                else:
+                if not self.cells[name].is_scalar():
                     raise AttributeError("Cells '%s' is not a scalar." % name)
+                elif not self.cells[name].is_cached:
+                    raise ValueError(
+                        "cannot set value because is_cached is False")
+                else:
+                    self.cells[name].set_value((), value)
             else:
                 raise ValueError
         else:
